@@ -456,24 +456,24 @@ End WithEnv.
 
 (* ------------------------------------------------------------------ entry point *)
 
-Inductive presult :=
-| POk (f : file)
-| PErr (e : list err)
-| POutOfFuel.
+Inductive parse_result :=
+| ParseOk (f : file)
+| ParseErr (e : list err)
+| ParseFuel.
 
 (* syntax.ParseFile: p := parser.New(text, path); p.Advance(); p.ParseFile() *)
-Definition parse_env (E : env) : presult :=
+Definition parse_env (E : env) : parse_result :=
   match advance E (init_state E) with
-  | Err e _ => PErr e
-  | OutOfFuel => POutOfFuel
+  | Err e _ => ParseErr e
+  | OutOfFuel => ParseFuel
   | Ok _ s =>
     match parse_file E s with
-    | Ok f _ => POk f
-    | Err e _ => PErr e
-    | OutOfFuel => POutOfFuel
+    | Ok f _ => ParseOk f
+    | Err e _ => ParseErr e
+    | OutOfFuel => ParseFuel
     end
   end.
 
 (* the parser for given letter / digit classifications, with Go's UTF-8 decoder *)
-Definition parse_text (letter digit : Z -> bool) (t : str) : presult :=
+Definition parse_text (letter digit : Z -> bool) (t : str) : parse_result :=
   parse_env (mk_env Utf8.decode letter digit t).
